@@ -104,6 +104,7 @@ func (f *Read) wrapRead(s *slip.Scope, r io.Reader, eofp bool, eofv slip.Object,
 			prev int
 		)
 		b := []byte{0}
+		var failed any
 		for {
 			if n, err := r.Read(b); err != nil || n != 1 {
 				if err != nil && !errors.Is(err, io.EOF) {
@@ -112,7 +113,7 @@ func (f *Read) wrapRead(s *slip.Scope, r io.Reader, eofp bool, eofv slip.Object,
 				break
 			}
 			buf = append(buf, b[0])
-			code, pos = readOne(s, buf)
+			code, pos, failed = readOne(s, buf)
 			if 0 < len(code) {
 				if prev == pos {
 					break
@@ -131,6 +132,10 @@ func (f *Read) wrapRead(s *slip.Scope, r io.Reader, eofp bool, eofv slip.Object,
 		if 0 < len(code) {
 			return code[0]
 		}
+		if failed != nil {
+			// the complete input is not readable
+			panic(failed)
+		}
 	}
 	if eofp {
 		slip.EndOfFilePanic(s, depth, r.(slip.Stream), "end of file or stream")
@@ -138,13 +143,18 @@ func (f *Read) wrapRead(s *slip.Scope, r io.Reader, eofp bool, eofv slip.Object,
 	return eofv
 }
 
-func readOne(s *slip.Scope, buf []byte) (code slip.Code, pos int) {
+// readOne reads one form from what has arrived so far. A prefix of a readable
+// text may be refused for any reason ("#\\" before the character, "|ab" before
+// the closing bar) so a failure is only remembered; it is raised by the caller
+// when the stream ends without a form.
+func readOne(s *slip.Scope, buf []byte) (code slip.Code, pos int, failed any) {
 	defer func() {
 		if rec := recover(); rec != nil {
 			if _, ok := rec.(*slip.PartialPanic); !ok {
-				panic(rec)
+				failed = rec
 			}
 		}
 	}()
-	return slip.ReadOne(buf, s)
+	code, pos = slip.ReadOne(buf, s)
+	return
 }
